@@ -102,7 +102,8 @@ CheckLine(n, e) ==
             IF Mode = "C01" THEN C01Group(n, e, p, e.groups[gi]) ELSE C02Group(n, e, p, e.groups[gi])
        \* every line accounts for all seven entry points
        /\ Require(LET S == UNION { { e.groups[gi].eps[i] : i \in 1..Len(e.groups[gi].eps) } : gi \in 1..Len(e.groups) }
-                  IN S = {"Decode", "Message.Decode", "Write", "UnmarshalBinary", "GobDecode", "ReadFrom", "CloneTo"},
+                  IN S = {"Decode", "Message.Decode", "Write", "UnmarshalBinary", "GobDecode", "ReadFrom", "CloneTo",
+                          "Decode/reused", "Write/reused", "ReadFrom/reused"},
                   n, "entry-points-missing", <<>>)
 
 Init == RegInit /\ l = 1
